@@ -76,8 +76,8 @@ func (s c17Sub) run(ctx sdk.Context, kind, id string, n int64) error {
 			inner := storetypes.NewGasMeter(1000)
 			inner.ConsumeGas(1001, "scripted out of gas on a nested meter")
 		}
-		if writes%3 == 2 {
-			// the gas counter itself overflows (the only way an unlimited begin-block meter can run out)
+		if writes%3 == 2 || ctx.GasMeter().Limit() == math.MaxUint64 {
+			// the gas counter itself overflows (the only way the unlimited meter of a real begin-block can run out)
 			ctx.GasMeter().ConsumeGas(1, "scripted gas")
 			ctx.GasMeter().ConsumeGas(math.MaxUint64, "scripted gas counter overflow")
 		}
@@ -119,6 +119,7 @@ func runC17(c *vk.Ctx) {
 			oogProb = 3
 		}
 		failProb := []int{0, 10, 30, 60}[r.Intn(4)]
+		unlimitedMeter := r.Intn(3) == 0
 		var blockRng *vk.Rng
 		outcomesSeen := map[int]int{}
 		script := func(call c17Call) (int, int) {
@@ -228,6 +229,10 @@ func runC17(c *vk.Ctx) {
 				c.Count("reimports", 1)
 			}
 			bctx := ctx.WithBlockTime(now).WithBlockHeight(height).WithGasMeter(storetypes.NewGasMeter(1_000_000_000))
+			if unlimitedMeter {
+				// as in a real begin-block; a saturated finite meter would re-raise a swallowed overflow at the next store access
+				bctx = bctx.WithGasMeter(storetypes.NewInfiniteGasMeter())
+			}
 			cctx, write := bctx.CacheContext()
 			trace = trace[:0]
 			okWrites = okWrites[:0]
